@@ -346,6 +346,16 @@ func instrumentAs(src, as, dst string) error {
 		}
 		return true
 	})
+	// a harness file whose only use of vrt was vrt.Go / vrt.AtQuiescence (rewritten above) must
+	// still use the import
+	for _, is := range f.Imports {
+		if is.Path.Value == strconv.Quote("gobmc/vrt") && is.Name == nil {
+			f.Decls = append(f.Decls, &ast.GenDecl{Tok: token.VAR, Specs: []ast.Spec{&ast.ValueSpec{
+				Names:  []*ast.Ident{ast.NewIdent("_")},
+				Values: []ast.Expr{&ast.SelectorExpr{X: ast.NewIdent("vrt"), Sel: ast.NewIdent("Assert")}},
+			}}})
+		}
+	}
 	// add the import
 	imp := &ast.ImportSpec{Path: &ast.BasicLit{Kind: token.STRING, Value: strconv.Quote("gobmc/vsched")}}
 	f.Decls = append([]ast.Decl{&ast.GenDecl{Tok: token.IMPORT, Specs: []ast.Spec{imp}}}, f.Decls...)
